@@ -36,6 +36,7 @@ Rerooted(e) == (e.op.op = "add_root" /\ e.pre.len > 0) \/ ("orphans" \in DOMAIN 
 CheckEvent(e) ==
     LET pre == ToTree(e.pre)
         post == ToTree(e.post)
+        preOK == LinksMirror(pre) /\ LeafFlags(pre)       \* the model is only evaluated on consistent pre-states
         m == Model(e, pre)
         sig == e.op.op \o "/" \o e.res
     IN
@@ -46,11 +47,11 @@ CheckEvent(e) ==
                Verdict("C12", e, "stored node unreachable / len differs from reachable count after " \o e.op.op, sig \o "/reach"))
     /\ Require(e.res # "err" \/ (Obs(post) = Obs(pre) /\ e.post.len = e.pre.len),
                Verdict("C12", e, "operation returned an error but changed the tree: " \o e.op.op, sig \o "/errchg"))
-    /\ Require(~(e.res = "ok" /\ m.res = "ok") \/ Obs(m.t) = Obs(post),
+    /\ Require(~preOK \/ ~(e.res = "ok" /\ m.res = "ok") \/ Obs(m.t) = Obs(post),
                Verdict("C12", e, "survivors do not keep index/value or wrong nodes removed/added by " \o e.op.op, sig \o "/effect"))
     /\ Require(~(e.res = "ok" /\ Inserting(e)) \/ e.ret \notin Occ(pre),
                Verdict("C12", e, "returned index was already occupied", sig \o "/retocc"))
-    /\ Require(e.res = m.res, Drift(e, "result " \o e.res \o " but model " \o m.res \o " for " \o e.op.op))
+    /\ Require(~preOK \/ e.res = m.res, Drift(e, "result " \o e.res \o " but model " \o m.res \o " for " \o e.op.op))
     /\ Require(e.exp.res = "none" \/ ~Inserting(e) \/ e.res # "ok" \/ e.exp.ret = e.ret,
                Drift(e, "allocated index differs from slab model"))
 
@@ -58,8 +59,8 @@ Init == l = 1 /\ cur = [none |-> TRUE]
 Next ==
     /\ l <= Len(Rec)
     /\ LET e == Rec[l] IN
-        /\ Require(e.first \/ cur = e.pre, Note("CONTINUITY", e, "recorded pre-state differs from previous post-state"))
-        /\ CheckEvent(e)
+        /\ (Require(e.first \/ cur = e.pre, Note("CONTINUITY", e, "recorded pre-state differs from previous post-state")) = TRUE)
+        /\ (CheckEvent(e) = TRUE)          \* "= TRUE": evaluated as an expression (short-circuit), not split as an action
         /\ cur' = e.post
     /\ l' = l + 1
 Spec == Init /\ [][Next]_vars
